@@ -14,7 +14,7 @@ echo "== tests with change"; T=$(cd $WT && PYTHONPATH=$WT /venv/bin/python -m py
 git -C /repo worktree remove --force $WT
 echo "demo clean=$D0 changed=$D1 tests: $T"
 git -C /repo apply $SD/patch.diff || exit 7
-echo "== our check"; ./check $PROP > /tmp/check_out_$$ 2>&1; C=$?
+echo "== our check"; PYVC_SCRATCH_EVIDENCE=1 ./check $PROP > /tmp/check_out_$$ 2>&1; C=$?
 git -C /repo checkout -- .
 grep -E "^VIOLATION|^UNDECIDED|^CHECKER|^$PROP:" /tmp/check_out_$$ | head -8
 echo "check exit=$C"
